@@ -33,8 +33,23 @@ def pmap(fn, items, jobs=None):
     if jobs <= 1 or len(items) <= 1:
         return [_worker((fn, it)) for it in items]
     ctx = mp.get_context("fork")
-    with ctx.Pool(min(jobs, len(items))) as pool:
-        return pool.map(_worker, [(fn, it) for it in items], chunksize=1)
+    # one deadline for the whole batch: an obligation that does not come back (a solver call ignoring its timeout on a changed tree)
+    # is reported as undecided instead of hanging the check
+    limit = float(os.environ.get("VERIF_OBL_TIMEOUT", "1800"))
+    pool = ctx.Pool(min(jobs, len(items)))
+    try:
+        pending = [pool.apply_async(_worker, ((fn, it),)) for it in items]
+        t_end = time.time() + limit
+        out = []
+        for a in pending:
+            try:
+                out.append(a.get(timeout=max(1.0, t_end - time.time())))
+            except mp.TimeoutError:
+                out.append(("error", "obligation did not finish within %d s (VERIF_OBL_TIMEOUT)" % limit))
+        return out
+    finally:
+        pool.terminate()
+        pool.join()
 
 
 def model_int(m, v):
